@@ -192,6 +192,7 @@ pub fn lanes_for(prop: &str, tier: &str, seed: u64) -> Vec<Scenario> {
             v.extend(gen_cli::lane_runs(seed));
             v.extend(gen_cli::lane_hard_failures(seed));
             v.extend(gen_cli::lane_directory(seed));
+            v.extend(gen_cli::lane_cram_sizes(seed));
             v.extend(gen_cli::lane_summary(seed, if thorough { 1 } else { 2 }));
             v.extend(gen_cli::lane_cli_fates(seed, if thorough { 1 } else { 4 }));
             v.extend(gen::lane_fates(Tier::Lib, seed));
